@@ -61,7 +61,7 @@ func runC15(r *Run) {
 			if !gets[0].Block().Dominates(e.From) {
 				continue
 			}
-			path, hit := reach(pointOfEdge(e), isIDStore, nil, isKeyGen)
+			path, hit := reachEdge(e, isIDStore, nil, isKeyGen)
 			if hit != nil {
 				ok = false
 				wit = pathString(r.P, path)
@@ -80,7 +80,7 @@ func runC15(r *Run) {
 		}
 		okErr := len(errE) > 0
 		for _, e := range errE {
-			if _, hit := reach(pointOfEdge(e), isIDStore, nil, nil); hit != nil {
+			if _, hit := reachEdge(e, isIDStore, nil, nil); hit != nil {
 				okErr = false
 			}
 		}
@@ -94,7 +94,7 @@ func runC15(r *Run) {
 		for _, br := range branchesIn(gb) {
 			if e, ok := stripValue(br.Info.Root).(*ssa.Extract); ok && e.Tuple == g2[0].Value() && e.Index == 0 {
 				if s, ok := br.nilSlot(true); ok {
-					if _, hit := reach(pointOfEdge(edge{br.If.Block(), s}), func(in ssa.Instruction) bool { return len(ids2) == 1 && in == ids2[0] }, nil, nil); hit != nil {
+					if _, hit := reachEdge(edge{br.If.Block(), s}, func(in ssa.Instruction) bool { return len(ids2) == 1 && in == ids2[0] }, nil, nil); hit != nil {
 						okG = false
 					}
 				}
@@ -235,7 +235,7 @@ func runC15(r *Run) {
 		r.check(len(cut) > 0 && hit == nil, "handler:saves-unless-destroyed", r.pos(next), "with the destroyed edge removed every path after Next saves the session", "a live session can reach the end of the request without being saved")
 		okD := len(cut) > 0
 		for e := range cut {
-			if _, hit := reach(pointOfEdge(e), isSave, nil, nil); hit != nil {
+			if _, hit := reachEdge(e, isSave, nil, nil); hit != nil {
 				okD = false
 			}
 		}
@@ -250,7 +250,7 @@ func runC15(r *Run) {
 			if e, ok := stripValue(br.Info.Root).(*ssa.Extract); ok && e.Index == 1 {
 				if _, isTA := e.Tuple.(*ssa.TypeAssert); isTA {
 					if s, ok := br.truthSlot(true); ok {
-						_, hit := reach(pointOfEdge(edge{br.If.Block(), s}), func(in ssa.Instruction) bool { return isCallTo(in, nameHasSuffix("session.Store).getSession")) }, nil, nil)
+						_, hit := reachEdge(edge{br.If.Block(), s}, func(in ssa.Instruction) bool { return isCallTo(in, nameHasSuffix("session.Store).getSession")) }, nil, nil)
 						okOwn = hit == nil
 					}
 				}
